@@ -276,8 +276,12 @@ def run(ck, ctx):
                 # intermediate quantities are looked up by the name the code gives them today; if a local was renamed
                 # or inlined, the quantity is searched by its formula instead (or the formula is left undecided with
                 # a NOTE when one of its inputs has no name any more) - a name is not an anchor of the property
-                lost = [src[6:].split("[")[0] for src in roles.values() if src.startswith("local:") and
-                        src[6:].split("[")[0] not in loc]
+                def base_name(src):
+                    return (src[6:] if src.startswith("local:") else src).split("[")[0]
+                lost = [base_name(src) for src in roles.values() if not src.startswith("self.") and
+                        base_name(src) not in loc]
+                lost += [src.split("[")[1][:-1] for src in roles.values() if "[" in src and ":" not in src.split("[")[1]
+                         and src.split("[")[1][:-1] not in loc]
                 if lost:
                     ck.note(f"{qual}: local quantity {lost[0]} not found by name - '{what}' is not decided")
                     continue
